@@ -27,7 +27,7 @@ def _oracle(ctx, area, n, label):
     k = 14
     chunks = [lines[i::k] for i in range(k)]
     with ThreadPoolExecutor(max_workers=k) as ex:
-        res = list(ex.map(lambda c: ctx.run_impl(area, c) if c else [], chunks))
+        res = list(ex.map(lambda c: ctx.run_impl(area, c, timeout=300) if c else [], chunks))
     if any(r is None for r in res):
         return
     lines = [l for c in chunks for l in c]
@@ -70,6 +70,14 @@ def run(ctx):
         "`out-of-fuel` if any node reaches that depth, which is a mismatch against a live implementation, and an "
         "implementation that dies (stack overflow) against a model answer is a mismatch too",
         "query results are compared as sorted id lists (order of the returned slice is not part of the property)",
+        "matchers that panic (string, error, runtime error, nil pointer, nil) or answer inconsistently are exercised "
+        "by `pprobe` lines: what such a call returns is not judged (the property does not fix the order in which a "
+        "matcher is consulted) except that matched answers stay within the unmatched ones; judged is that the tree is "
+        "unharmed (the `state` line and probes that follow). Slices returned by All/Find* are overwritten by the "
+        "harness after use (aliasing would show as ALIASED or in later lines)",
+        "Threshold is set in mid-history to 0, +-1, negative, MinInt, 3, 4, 5, 7, 10, 12, 63..65 and MaxInt; int "
+        "coordinates go up to 2^60 (huge root above unit squares, 60 levels) but never so far that X+Width leaves "
+        "int64; a watchdog ends the harness when one operation runs for more than 10 s",
         "the sixteen query methods are instances of two generic traversals (Node.find / Node.any) with the pruning "
         "test and the item test of the respective Go function",
     ]
@@ -92,10 +100,10 @@ def run(ctx):
     ]
     ctx.lean(props=["Props.C07"], drivers=["drv_c07"])
     ctx.harness("./cmd/c07")
-    ctx.diff(area="quadtree", driver="drv_c07", n={"quick": 200000, "thorough": 3000000}, stateful=True,
+    ctx.diff(area="quadtree", driver="drv_c07", n={"quick": 150000, "thorough": 3000000}, stateful=True, timeout=300,
              trivial=lambda l, o: o == "ok",
              tagger=lambda l, o: l.split()[0] if not l.startswith("reset") else "reset " + " ".join(l.split()[1:]),
              theorem="C07.abs_run / size_run / find_eq_filter / bool_iff_find_nonempty (model = linear scan); "
                      "impl != model on this history")
-    _oracle(ctx, "floatscan", {"quick": 8000, "thorough": 300000},
+    _oracle(ctx, "floatscan", {"quick": 6000, "thorough": 300000},
             "quadtree vs linear scan with the library's geom predicates on rounding float64 coordinates")
